@@ -19,10 +19,6 @@ pub struct Control { pub x: u8 }
 pub struct RawControl { pub ctype: String, pub crit: bool, pub val: Option<Vec<u8>> }
 pub type MaybeControls = Option<Vec<RawControl>>;
 
-impl Clone for StructureTag {
-    #[verifier::external_body]
-    fn clone(&self) -> (r: StructureTag) ensures r == *self { unimplemented!() }
-}
 //@include contracts/shared/lift_structure_tag.rs
 
 // --- std::io::Error, bytes::BytesMut, nom::Err, lber::Parser as contracted stubs
